@@ -119,8 +119,8 @@ static void observe(qlisttbl_t *t, const model_t *m, const char *after) {
         sm_scribble(kb, qn);
     }
 }
-/* save (URL-encoded values) and load into a fresh table; the loaded table must equal the model obtained by
- * putting the saved entries, in file order, into an empty table with the loader's options */
+/* save (URL-encoded values) and load into a fresh table with the given options: same entries, same order
+ * (a UNIQUE loader keeps the last of equal names, which cannot occur when the saved table was UNIQUE as well) */
 static long n_saveload;
 static void saveload(qlisttbl_t *t, const model_t *m, int loadopt, const char *after) {
     for (int i = 0; i < m->n; i++) if (VAL[m->vl[i]].kind == 2) return;   /* only tables of string values */
@@ -129,8 +129,9 @@ static void saveload(qlisttbl_t *t, const model_t *m, int loadopt, const char *a
     if (!t->save(t, mpath, '=', true)) { vc_viol("saveload:save-failed", "after %s: save returned false", after); return; }
     qlisttbl_t *t2 = qlisttbl(loadopt << 1);
     ssize_t r = t2->load(t2, mpath, '=', true);
+    /* load() is documented to append at the bottom "to preserve the order as it was", whatever the insert-top option says */
     model_t m2; m2.n = 0;
-    for (int i = 0; i < m->n; i++) m_put(&m2, m->nm[i], m->vl[i], loadopt & 1, (loadopt >> 2) & 1);
+    for (int i = 0; i < m->n; i++) m_put(&m2, m->nm[i], m->vl[i], loadopt & 1, 0);
     if (r != m->n) vc_viol("saveload:count", "after %s: load reported %zd entries, %d were saved", after, r, m->n);
     int n = 0; qlisttbl_obj_t *o; int bad = 0;
     for (o = t2->first; o; o = o->next, n++) if (n >= m2.n || nameid(o->name) != m2.nm[n] || valid(o->data, o->size) != m2.vl[n]) { bad = 1; break; }
@@ -231,7 +232,7 @@ static void value_case(const char *v1, const char *v2) {
     n_values++;
     long live0 = va_live;
     if (mfd < 0) { mfd = memfd_create("listtbl", 0); snprintf(mpath, sizeof mpath, "/proc/self/fd/%d", mfd); }
-    qlisttbl_t *t = qlisttbl(LIBOPT), *t2 = qlisttbl(LIBOPT & ~QLISTTBL_INSERTTOP);
+    qlisttbl_t *t = qlisttbl(LIBOPT), *t2 = qlisttbl(LIBOPT);
     char *b1 = sm_fresh(v1, strlen(v1) + 1); t->putstr(t, "k1", b1); sm_scribble(b1, strlen(v1) + 1);
     if (v2) { char *b2 = sm_fresh(v2, strlen(v2) + 1); t->putstr(t, "k2", b2); sm_scribble(b2, strlen(v2) + 1); }
     int n = v2 ? 2 : 1;
